@@ -305,6 +305,40 @@ func TestC07(t *testing.T) {
 		}
 	}
 
+	// (b') the source dictionary: every literal of the library's sources, and what one or two bit
+	// operations make of it, as a value of every type, with its neighbours in value order
+	if loadDict(); shard == 0 {
+		stats.Extra["source_dictionary_literals"] = len(dictVals)
+		stats.Extra["source_dictionary_files"] = dictFiles
+		for _, name := range allNumKindNames {
+			f := numKinds[name]
+			lo, hi := rankRange(f)
+			n := 0
+			for _, c := range dictVals {
+				for _, v := range dictDerived(c, f.width) {
+					x := canonBits(f.class, f.width, v)
+					if isNaNBits(f, x) {
+						_, err := checkOne(f, x)
+						report(err)
+						continue
+					}
+					r := bitsToRank(f, x)
+					a, z := r, r
+					if r > lo {
+						a = r - 1
+					}
+					if r < hi {
+						z = r + 1
+					}
+					m, err := walkRanks(f, a, z)
+					report(err)
+					n += m
+				}
+			}
+			stats.AddBulk(n, n, "dictionary_"+name)
+		}
+	}
+
 	// (c) rapid pairs and tuples
 	rapid.Check(t, func(rt *rapid.T) {
 		f := numKinds[pick(rt, allNumKindNames, "type")]
